@@ -10,8 +10,8 @@ One step.  Let F_t be an arbitrary forward state (fields anywhere, PML auxiliary
 psi = 0 on each layer's inner-face row), F_{t+1} = forward(F_t) with boundary recording; let S be any
 state that agrees with F_{t+1} outside the slabs (arbitrary inside them).  Then backward(S) - which
 first overwrites each layer's inner-face row with the recorded forward values, reverses the H and E
-updates and zeroes the slabs - equals F_t on every cell outside the slabs, is zero inside them, and
-has step counter t.  Also proved: forward keeps psi = 0 on the inner-face rows (the "default grading"
+updates and resets the slabs - equals F_t on every cell outside the slabs and has step counter t (what it
+leaves inside the slabs is not constrained: the next step's premise allows arbitrary values there).  Also proved: forward keeps psi = 0 on the inner-face rows (the "default grading"
 clause enters as the precondition a_E = a_H = 0 on those rows, kappa = 1), and the recorded values are
 exactly the inner-face rows of F_{t+1}.  Induction from the final state (Inv(T) holds trivially) gives
 the property for every earlier step; lossless recording is the recorder's contract (C30).
@@ -53,7 +53,7 @@ ASSUMPTIONS = [
     "opposite layers on one axis do not overlap (L_lo + L_hi <= N)",
     "induction over the reverse sweep is a pencil step on top of the one-step obligation",
 ]
-MIN_OBLIGATIONS = {"quick": 80, "thorough": 200}
+MIN_OBLIGATIONS = {"quick": 300, "thorough": 900}
 LEVEL_TEXT = "Deductive proof for all shapes, layer thicknesses, field/material/coefficient values that one real backward step maps any state agreeing with the forward state outside the absorbing layers to the previous forward state there; PML face subsets and the boundary kinds on the remaining faces enumerated"
 LEVEL_NOTE = "real arithmetic; recorder abstracted as lossless (C30); default grading as precondition on the coefficient arrays"
 
@@ -143,9 +143,10 @@ def _task(spec):
         c.cover("pre")
         f1 = F.forward((t_arr, arr), cfg, objs, None, record_detectors=False, record_boundaries=True, simulate_boundaries=True)
         F1 = f1[1]
+        part = spec.get("part", "all")  # obligations of one scene are spread over several tasks (parallelism only)
         # (i) the recorded values are the inner-face rows of the new forward state
         for b in bnds:
-            if b.name in psiE:
+            if b.name in psiE and part in ("all", "rest"):
                 for nm, X in (("E", F1.fields.E), ("H", F1.fields.H)):
                     prove_arrays_equal(f"recorded[{b.name}_{nm}]==inner_face_row", rec.store["last"][f"{b.name}_{nm}"], X[(slice(None), *b.interface_slice())])
                 # (ii) psi stays zero on the inner-face row
@@ -163,13 +164,12 @@ def _task(spec):
 
         S = F1.aset("fields->E", mix(F1.fields.E, GE)).aset("fields->H", mix(F1.fields.H, GH))
         s0 = B.backward((f1[0], S), cfg, objs, key=object(), record_detectors=False, reset_fields=True)
-        outside = lambda idx: A._vnot(in_pml(idx[1:]))  # noqa: E731
-        inside = lambda idx: in_pml(idx[1:])  # noqa: E731
-        prove_arrays_equal("E_reconstructed_outside_layers", s0[1].fields.E, arr.fields.E, where=outside)
-        prove_arrays_equal("H_reconstructed_outside_layers", s0[1].fields.H, arr.fields.H, where=outside)
-        prove_pointwise("E_zero_inside_layers", s0[1].fields.E, lambda v, idx: A.v_eq(v, 0), where=inside)
-        prove_pointwise("H_zero_inside_layers", s0[1].fields.H, lambda v, idx: A.v_eq(v, 0), where=inside)
-        c.prove("time_step_restored", A.v_eq(A.asarray(s0[0]).item(), t))
+        for nm, X, X0 in (("E", s0[1].fields.E, arr.fields.E), ("H", s0[1].fields.H, arr.fields.H)):
+            for k in range(3):
+                if part in ("all", f"{nm}{k}"):
+                    prove_arrays_equal(f"{nm}_reconstructed_outside_layers", X, X0, where=lambda idx, k=k: A._vnot(in_pml(idx[1:])) if idx[0] == k else False)
+        if part in ("all", "rest"):
+            c.prove("time_step_restored", A.v_eq(A.asarray(s0[0]).item(), t))
 
     return body
 
@@ -195,5 +195,6 @@ def tasks(tier, seed):
         assigns += rnd.sample(full, 24)
     for a in assigns:
         for e, m in [(1, "scalar"), (3, 3)] if (tier == "thorough" or a in assigns[:3]) else [(3, 1)]:
-            out[f"{K.bnd_label(a)}/e{e}m{m}"] = Task(_task(dict(bnd=a, eps=e, mu=m)), max_paths=512)
+            for part in ("E0", "E1", "E2", "H0", "H1", "H2", "rest"):
+                out[f"{K.bnd_label(a)}/e{e}m{m}/{part}"] = Task(_task(dict(bnd=a, eps=e, mu=m, part=part)), max_paths=512)
     return out
